@@ -65,11 +65,12 @@ pub struct Globals {
     pub trace_starts: u32,
     pub trace_results: u32,
     pub ctx_seen: u32,
+    pub aux: [i32; 4],               // schema-specific scratch numbers written by the extraction code, read by `post`
 }
 
 pub static mut G: Globals = Globals {
     t: Tables::zero(), calls: [[0; NPOS]; NOPS], chk_calls: [[0; NPOS]; NCHK], bad_rest: false,
-    trace_depth: 0, trace_min: 0, trace_starts: 0, trace_results: 0, ctx_seen: 0,
+    trace_depth: 0, trace_min: 0, trace_starts: 0, trace_results: 0, ctx_seen: 0, aux: [0; 4],
 };
 
 pub fn install(t: &Tables) {
@@ -78,7 +79,7 @@ pub fn install(t: &Tables) {
         G.calls = [[0; NPOS]; NOPS];
         G.chk_calls = [[0; NPOS]; NCHK];
         G.bad_rest = false;
-        G.trace_depth = 0; G.trace_min = 0; G.trace_starts = 0; G.trace_results = 0; G.ctx_seen = 0;
+        G.trace_depth = 0; G.trace_min = 0; G.trace_starts = 0; G.trace_results = 0; G.ctx_seen = 0; G.aux = [0; 4];
     }
 }
 
@@ -163,9 +164,10 @@ pub struct Obs {
     pub f: [Fld; NFLD],      // field contents as tag lists, in order
     pub x: [i32; 6],         // schema-specific numbers (positions, counters, ...)
     pub sentinel: bool,      // the reported error detail is LeftRecursionSentinel
+    pub failmask: u8,        // reference side only: bit p = some match attempt failed at offset p during the parse (anywhere, lookaheads included)
 }
 impl Obs {
-    pub const fn new() -> Obs { Obs { ok: false, end: 0, err: 0, f: [Fld::empty(); NFLD], x: [0; 6], sentinel: false } }
+    pub const fn new() -> Obs { Obs { ok: false, end: 0, err: 0, f: [Fld::empty(); NFLD], x: [0; 6], sentinel: false, failmask: 0 } }
 }
 
 // ------------------------------------------------------------------------------------------------
@@ -188,16 +190,18 @@ pub struct Cx {
     pub lr_pos: usize,            // @leftrec: position of the rule under growth
     pub lr_active: bool,
     pub lr_best: Option<(usize, Snap)>,
+    pub failmask: u8,
 }
 
 impl Cx {
     pub fn new(t: &Tables) -> Cx {
         Cx { t: *t, f: [Fld::empty(); NFLD], x: [0; 6], maxfail: None, la: 0, la_max: None, last: 0, custom_ws: None,
-             lr_pos: 0, lr_active: false, lr_best: None }
+             lr_pos: 0, lr_active: false, lr_best: None, failmask: 0 }
     }
     pub fn snap(&self) -> Snap { Snap { f: self.f, x: self.x } }
     pub fn restore(&mut self, s: &Snap) { self.f = s.f; self.x = s.x; }
     pub fn fail(&mut self, p: usize) {
+        if p < 8 { self.failmask |= 1u8 << p; }
         if self.la == 0 { self.maxfail = Some(match self.maxfail { Some(m) if m > p => m, _ => p }); }
         else { self.la_max = Some(match self.la_max { Some(m) if m > p => m, _ => p }); }
     }
@@ -255,6 +259,7 @@ impl Cx {
             Some(e) => { o.ok = true; o.end = e; o.f = self.f; o.x = self.x; }
             None => { o.ok = false; o.err = self.maxfail.unwrap_or(0); }
         }
+        o.failmask = self.failmask;
         o
     }
 }
